@@ -445,6 +445,7 @@ type Task struct {
 	modelNames map[string]string // get-value term -> witness name
 	nfn        int
 	quantDepth int
+	unfoldDepth int
 	lateFacts  []string          // facts about ghost identities: valid everywhere, added to every query
 }
 
